@@ -2846,21 +2846,20 @@ class Parameters:
             pobj._mode = 'set'
 
         assigned = set()
-        try:
-            with (nullcontext() if scope is None else scope):
-                for (k, v) in kwargs.items():
-                    if k not in self_:
-                        raise ValueError(f"{k!r} is not a parameter of {self_.cls.__name__}")
-                    setattr(self_or_cls, k, v)
-                    assigned.add(k)
-        finally:
+
+        def finish(failed):
             # Also on failure: restore the batching state that was in
             # effect, announce the changes already applied and let
             # Event parameters reset themselves again.
             self_._BATCH_WATCH = BATCH_WATCH
             try:
                 if not BATCH_WATCH:
-                    self_._batch_call_watchers()
+                    try:
+                        self_._batch_call_watchers()
+                    except BaseException:
+                        # (the failure reported is the first one)
+                        if not failed:
+                            raise
             finally:
                 for tp in trigger_params:
                     p = self_[tp]
@@ -2871,6 +2870,18 @@ class Parameters:
                     p._mode = 'set-reset'
                 for pobj in switched:
                     pobj._mode = 'set-reset'
+
+        try:
+            with (nullcontext() if scope is None else scope):
+                for (k, v) in kwargs.items():
+                    if k not in self_:
+                        raise ValueError(f"{k!r} is not a parameter of {self_.cls.__name__}")
+                    setattr(self_or_cls, k, v)
+                    assigned.add(k)
+        except BaseException:
+            finish(True)
+            raise
+        finish(False)
         return restore
 
     # PARAM3_DEPRECATION
